@@ -132,8 +132,11 @@ func originsOf(v ssa.Value) []ssa.Value {
 		}
 		seen[v] = true
 		if ph, ok := v.(*ssa.Phi); ok {
-			for _, e := range ph.Edges {
-				walk(e, d+1)
+			dead := phiDeadEdges(ph)
+			for i, e := range ph.Edges {
+				if !dead[i] {
+					walk(e, d+1)
+				}
 			}
 			return
 		}
